@@ -135,6 +135,45 @@ def runC06 : P Verdict := do
          cls := s!"ord{if cep.length ≤ 8 then "<=7" else if cep.length ≤ 25 then "<=24" else ">24"}:a{if c.alpha == 0.0 then "0" else if c.alpha < 0.3 then "lo" else "hi"}:r{c.rate}",
          bitsOk := bo, bitsAll := ba }
 
+/-- `C06h`: lead-in frame with another cepstrum, then the cepstrum under test twice; the response to the pulse on the
+    first sample of frame 2 (coefficients standing still) must have the spectrum of frame 2's cepstrum. -/
+def runC06h : P Verdict := do
+  let c ← parseCase
+  let w ← parseWave
+  let k ← nat
+  let m := runModel c
+  let (corr, bo, ba) := diffWave 1e-6 m w
+  let (lf0, cep, _) := c.frames.getD 2 (0.0, [], [])
+  let p := periodOf c.rate lf0
+  let fp := c.fperiod
+  let orc := match w with
+    | .panic s => some s!"panicked at {s}"
+    | .ok ws => Id.run do
+      if ws.length != 3 * fp then return some "wrong number of samples"
+      let h : Array Float := (((ws.drop (2 * fp)).take fp).map fun x => x / Float.sqrt p).toArray
+      let tot := energy h 0 h.size
+      let tail := energy h (h.size * 7 / 8) h.size
+      let prev : Array Float := ((ws.drop fp).take fp).toArray
+      let ptail := energy prev (prev.size * 7 / 8) prev.size
+      -- the comparison needs the response of frame 2 alone: skip the case when either response has not died out
+      if !(tail ≤ 1e-10 * tot) || !(ptail ≤ 1e-10 * energy prev 0 prev.size) then return none
+      let mut worst := 0.0
+      let mut worstAt := 0
+      for i in [0:k] do
+        let om := pi * i.toFloat / (k - 1).toFloat
+        let wt := warp om c.alpha
+        let want := ((List.range cep.length).zip cep).foldl (fun acc (mi, cm) => acc + cm * Float.cos (mi.toFloat * wt)) 0.0
+        let got := logMagAt h om
+        let d := fabs (got - want)
+        if d > worst || d.isNaN then
+          worst := if d.isNaN then 1e9 else d
+          worstAt := i
+      if worst > 0.01 then return some s!"after a lead-in frame with another cepstrum, the response in the stationary frame deviates {worst} neper from Σ c_m cos(m ω~) at bin {worstAt}/{k} (order {cep.length - 1}, alpha {c.alpha})"
+      return none
+  pure { corr, oracle := orc, nontriv := (cep.drop 1).any (· != 0.0),
+         cls := s!"history:ord{if cep.length ≤ 8 then "<=7" else if cep.length ≤ 25 then "<=24" else ">24"}:a{if c.alpha == 0.0 then "0" else "x"}",
+         bitsOk := bo, bitsAll := ba }
+
 /-! ### C07 -/
 structure Pulse where
   pos : Nat
@@ -474,6 +513,7 @@ def run : P Verdict := do
   match mode with
   | "RAW" => runRaw
   | "C06" => runC06
+  | "C06h" => runC06h
   | "C07" => runC07
   | "C13" => runC13
   | "C14" => runC14
